@@ -62,6 +62,7 @@ func (g *G) genC07(p *Plan) {
 		allKeys = append(allKeys, KeyRef{Key: k})
 	}
 	big := g.chance(0.35)
+	chunkedRun := g.chance(0.2)
 	// some runs delete and re-create the (momentarily empty) bucket under the other clients
 	recycler := -1
 	if c.Buckets != nil && !c.Versioned && nup == 0 && c.Backend != "singlefs" && g.chance(0.3) {
@@ -87,6 +88,14 @@ func (g *G) genC07(p *Plan) {
 					sz = 33000 + g.rng.Intn(70000)
 				}
 				op = Op{K: "put", B: b, Key: key(), Body: g.body(sz)}
+				if chunkedRun && g.chance(0.6) {
+					// streaming (aws-chunked) uploads that overlap one another
+					op.Chunks = []int{g.pick2(7, 64, 1000, 40000)}
+					if g.chance(0.4) {
+						op.Frag = g.pick("random", "halves")
+						op.Faults = append(op.Faults, Fault{Kind: "stall", N: g.n(1, 3)})
+					}
+				}
 				if role == "slow-uploader" {
 					op.Frag = g.pick("bytes", "random", "halves")
 					op.Faults = append(op.Faults, Fault{Kind: "stall", N: g.n(1, 4)})
@@ -341,7 +350,7 @@ func (g *G) genC08(p *Plan) {
 			ops = append(ops, op)
 		}
 		if kind == "chunked" {
-			for _, lie := range []string{"badhex", "nosig", "trunc", "trunc1", "declen+", "declen-", "nofinal", "sig63", "sig65", "sig200", "badcrlf"} {
+			for _, lie := range []string{"badhex", "nosig", "trunc", "trunc1", "declen+", "declen-", "nofinal", "sig63", "sig65", "sig200", "badcrlf", "upperhex"} {
 				op := mk()
 				op.Body = g.body(1 + size)
 				op.ChLie = lie
@@ -518,6 +527,17 @@ func (g *G) genC12(p *Plan) {
 			ops = append(ops, Op{K: "put", B: b, Key: key, Body: g.body(size), Chunks: chunks, Frag: fr})
 		}
 		ops = append(ops, Op{K: "put", B: b, Key: key, Body: g.body(size), Chunks: chunks, Splits: []int{1<<25 - g.n(1, 3000000), 1<<25 - g.n(1, 3000), 1<<25 + g.n(1, 5000)}})
+	}
+	if g.chance(0.3) {
+		// a client that writes chunk sizes in upper-case hex
+		for i := range ops {
+			if ops[i].K == "put" && len(ops[i].Chunks) > 0 {
+				ops[i].ChLie = "upperhex"
+			}
+		}
+		for _, cs := range []int{10, 255, 7936, 43981, 48879} {
+			ops = append(ops, Op{K: "put", B: b, Key: key, Body: g.body(cs*2 + g.n(0, 40)), Chunks: []int{cs}, ChLie: "upperhex", Frag: g.frag()})
+		}
 	}
 	for _, lie := range []string{"badhex", "nosig", "trunc", "trunc1", "declen+", "declen-", "nofinal", "sig8", "sig63", "sig65", "sig200", "sig0", "badcrlf", "lfonly"} {
 		if g.chance(0.5) {
